@@ -185,7 +185,9 @@ def units(w):
             return SFloat(z3.ToReal(n), intz=n)
         r = it.fresh_float("oa")
         sod = z3.ToReal(date_sod(d))
-        it.path.assume(z3.And(r.z >= z3.ToReal(n), r.z < z3.ToReal(n) + 1), check=False)
+        exact = z3.ToReal(n) + sod / 86400
+        # the postcondition of date.py::to_oa_date[time-of-day]
+        it.path.assume(z3.And(r.z >= z3.ToReal(n), r.z < z3.ToReal(n) + 1, r.z - exact < z3.RealVal("1/200000000"), exact - r.z < z3.RealVal("1/200000000")), check=False)
         return r
 
     def abs_to_date(it, a, k, node):
@@ -297,6 +299,25 @@ def units(w):
     U.append(Unit("functions.py::FuncSub.execute", s_sub(True), p_diff, name="functions.py::FuncSub.execute[date-date]",
                   abstractions=ABS2, replay=replay_arith("diff")))
 
+    # d1 - d2 with times of day: the whole number of days nearest to the exact difference; for equal times of day (the case
+    # (d + n) - d) exactly the difference of the day numbers
+    def s_diff_time(it):
+        a, b = V.date(it, "a"), V.date(it, "b")
+        args = V.args(it, {"a": a, "b": b})
+        return [Obj(sub_cls(), {"name": "f", "secure": True}), args, V.env(it), V.pos(it, "cpos")], {}, {"a": a, "b": b}
+
+    def p_diff_time(it, c, o):
+        it.check("post:is-ValueInt", o.kind == "return" and o.value.cls.name == "ValueInt" and isinstance(o.value.fields["value"], (int, SInt)))
+        if o.kind != "return" or not isinstance(o.value.fields["value"], (int, SInt)):
+            return
+        r = zi(o.value.fields["value"])
+        da, db = c["a"].fields["value"], c["b"].fields["value"]
+        exact = (z3.ToReal(date_N(da)) + z3.ToReal(date_sod(da)) / 86400) - (z3.ToReal(date_N(db)) + z3.ToReal(date_sod(db)) / 86400)
+        it.check("post:the-nearest-whole-number-of-days", z3.And(z3.ToReal(r) - exact <= z3.RealVal("50000001/100000000"), exact - z3.ToReal(r) <= z3.RealVal("50000001/100000000")))
+        it.check("post:equal-times-of-day-give-the-difference-of-day-numbers", z3.Implies(date_sod(da) == date_sod(db), r == date_N(da) - date_N(db)))
+    U.append(Unit("functions.py::FuncSub.execute", s_diff_time, p_diff_time, name="functions.py::FuncSub.execute[date-date, times of day]",
+                  abstractions=ABS2, replay=replay_arith("diff")))
+
     # ---- algebraic laws as lemmas over the contracts above
     def l_laws():
         Nd, n = z3.Ints("Nd n")
@@ -391,6 +412,13 @@ def replay_arith(op):
                     progs.append((f"string((date('{ds}') - {n}) + {n})", f"'{ds}000000'"))
                 else:
                     progs.append((f"string((date('{ds}') + {n}) - date('{ds}'))", f"'{n}'"))
+        if op == "diff":
+            import random
+            rnd = random.Random(17)
+            for _ in range(4000):
+                ds = f"{rnd.randint(1900, 9000):04d}{rnd.randint(1, 12):02d}{rnd.randint(1, 28):02d}{rnd.randint(0, 23):02d}{rnd.randint(0, 59):02d}{rnd.randint(0, 59):02d}"
+                n = rnd.choice([1, 7, 1000, 36525, -1, -400])
+                progs.append((f"string((date('{ds}') + {n}) - date('{ds}'))", f"'{n}'"))
         for src, exp in progs:
             try:
                 obs = str(interp.interpret(src, "-"))
